@@ -437,6 +437,9 @@ static var Type_Instance(var self, var cls) {
   if (self is NULL) {
     return throw(ValueError, "Received NULL as type to look up an instance on");
   }
+  if (cls is NULL) {
+    return throw(ValueError, "Received NULL as class to look up an instance of");
+  }
 #endif
 
 #if CELLO_CACHE == 1
